@@ -53,5 +53,6 @@ extern uint64_t probe_hits[64];           // reach probes (CJSON_VERIF_YIELD sit
 std::string describe_live(size_t max = 8);
 // for sanitizer reports on the custom arena: what the faulting address is (freed block, redzone, ...)
 const char *classify_address(const void *p);
+size_t live_blocks_of_step(int step);   // live blocks that were allocated while executing that step
 void set_step_index(int idx);
 }  // namespace asim
